@@ -681,6 +681,10 @@ class Boundary(Node):
                 # vertex): below the resolution of the two-sided test, not judged
                 second = np.sort(leaves[:, bad], axis=0)[1] if leaves.shape[0] > 1 else np.zeros(len(bad))
                 amb[bad[second > 2 * tol]] = True
+                if P.shape[1] >= 3:
+                    # 3-D: the 128 directions of the ring test miss thin wedges along the curve where two surfaces cross
+                    # (operands sharing a face exactly are generated in 2-D only): not judged
+                    amb[bad] = True
         return sure, amb
 
     def measure(self, env, N=1):
